@@ -1,6 +1,9 @@
 #!/bin/bash
 # Rebuilds the simulator binaries against /repo's CURRENT working tree (hooks enabled with -tags verif).
-#   build.sh plain|race|all
+#   build.sh plain|race|race-yield|all
+# race-yield (C16): the race build against an instrumented scratch copy of the tree made by sim/cmd/lockyield, in which every
+# lock acquisition of goja code is an additional scheduling point of the simulator; the copy lives under /var/tmp only
+# while the build runs.
 # VERIF_REPO=<dir> builds against another goja tree (mutant self-tests), VERIF_BIN=<dir> chooses the output directory.
 set -u
 . "$(dirname "$0")/env.sh"
@@ -23,5 +26,15 @@ if [ "$what" = plain ] || [ "$what" = all ]; then
 fi
 if [ "$what" = race ] || [ "$what" = all ]; then
   $GO build $modflag -race -tags verif -o "$bindir/verif-race" ./cmd/verif || { echo "BUILD-FAILED (race)"; exit 2; }
+fi
+if [ "$what" = race-yield ] || [ "$what" = all ]; then
+  ycopy="$(mktemp -d /var/tmp/verif-yieldcopy.XXXXXX)"
+  trap 'rm -rf "$ycopy"' EXIT
+  $GO build -o "$ycopy/lockyield" ./cmd/lockyield || { echo "BUILD-FAILED (lockyield)"; exit 2; }
+  "$ycopy/lockyield" "$repo" "$ycopy/repo" || { echo "BUILD-FAILED (instrumenting the tree)"; exit 2; }
+  sed "s#=> /repo#=> $ycopy/repo#" go.mod > "$ycopy/go.mod"
+  cp "$repo/go.sum" "$ycopy/go.sum"
+  $GO build -modfile="$ycopy/go.mod" -race -tags verif,verifyield -o "$bindir/verif-race-yield" ./cmd/verif || { echo "BUILD-FAILED (race-yield)"; exit 2; }
+  rm -rf "$ycopy"
 fi
 exit 0
